@@ -47,6 +47,8 @@ def parse(path_or_lines):
             cur.tgt = {v[i]: (v[i + 1], v[i + 2]) for i in range(0, len(v), 3)}  # state -> (index in prev, id)
         elif t == 'D':
             cur.draws = int(parts[1])
+        elif t == 'N':
+            cur.lines.append((t, parts[1:]))
         elif t == 'p' or t == 'b':
             cur.lines.append((t, parts[1:]))
         else:
